@@ -50,7 +50,7 @@ META = {
                 "(recursion only after consuming a byte; loops bounded by capped counts); a successful decode returns a suffix. The "
                 "unbounded recursion depth is proved as a refutation with a parametric witness (known finding), as observed on the "
                 "implementation in a child process. Panics, peak allocation and re-decode stability are measured on the implementation "
-                "for corrupted encodings, hostile catalogue and exhaustive short strings every run.",
+                "for corrupted encodings, hostile catalogue and exhaustive short strings every run. C04_typed_layer_total extends no-panic / enough-fuel to the typed layer: the field loop of a composite, an enum of composites and a whole frame body.",
         "design_ref": "DESIGN.md section 4, C04",
         "note": "Trusted as C03. Known findings: stack depth grows with nesting; an array of zero-width elements allocates ~5 MB from 10 bytes.",
         "technique": "Coq proof (induction on fuel with a length measure) + correspondence + allocation/stack probes on the implementation",
@@ -70,7 +70,7 @@ META = {
                 "concatenating to the payload and all but the last frame exactly M bytes, so start_send's cuts fall on frame boundaries; any "
                 "other performative is one frame or an error; the length-delimited decoder delivers the same frames under every partition "
                 "of the byte stream into reads, and decodes what the encoder wrote. Framing constants are regenerated from the source "
-                "(Tie_FrameConsts). The real Transport's bytes are compared with the model every run and parsed by an independent parser.",
+                "(Tie_FrameConsts). The real Transport's bytes are compared with the model every run and parsed by an independent parser. Frame codec: C06_frame_roundtrip - for every channel, every performative of the protocol with any admissible field vector and, for a transfer, any payload, the model of FrameDecoder (header rules, Performative dispatch on the descriptor, typed field loop, payload) applied to the bytes of the model of FrameEncoder returns exactly that frame; both are run against the real Transport / FrameDecoder every run (sub fdec).",
         "design_ref": "DESIGN.md section 4, C06",
         "note": "Trusted: Coq kernel, extraction, translator, the model of tokio-util's decoder (validated by running). Fixed defect: "
                 "oversize non-transfer frames were chopped (a2409e6).",
@@ -241,7 +241,7 @@ META = {
         "text": "Decided by exploration with a direct oracle: client and listener in 13 states x a catalogue of 180 hostile stimuli (framing, bodies, protocol violations) x 3 "
                 "follow-ups, plus mutated frames: no panic, no stack overflow, no pending call after EOF, bounded time / response / allocation per frame, an error visible to "
                 "the application, other connections unaffected. The theorems that bear on it are those of C04 (the decoder model is total, never panics, consumes a prefix) and "
-                "the totality of the lifecycle step functions of C12/C13/C19; there is no Coq model of the engines under arbitrary frames.",
+                "the totality of the lifecycle step functions of C12/C13/C19; there is no Coq model of the engines under arbitrary frames. The frame decoder as a whole (header, dispatch on the descriptor, typed field loop, payload: Frame/AmqpFrame.v) is proved total - no panic for any bytes, fuel length+1 suffices - and is run against the real FrameDecoder on generated, re-headed, truncated and random frames every run.",
         "design_ref": "DESIGN.md section 4, C15",
         "note": "Partial: exploration, not proof, for the engine-level clauses. Fixed defects found here: u32 overflow panic on a list count of 0xffffffff, 2^32-iteration loop "
                 "on a disposition range, session error lost when the peer does not answer the end, listener handle / channel hijack by a second attach / begin. Known "
